@@ -21,6 +21,15 @@ P = {
   "Every byte string over a 19-atom alphabet up to the tier's length is loaded as a root module under every charset header x scheme x media type through the real builder; stored text, try_get_original_bytes and the serialised size are compared with an independent reference decoder (WHATWG UTF-16 state machine, from_utf8_lossy, cp1252 table). Complete enumeration.",
   "Trusted: the reference decoder, std's from_utf8_lossy. TS modules whose decoded text does not parse are unobservable (JSON modules cover every string).",
   "DESIGN.md §4 C20", TECH + "; Full enumeration of byte strings x charset x scheme x media type against an independent decoder"),
+
+ "C17": (True,
+  "Every world inside the deviation bound (entry kinds x attributes x import forms x targets x local/remote, 3 option sets) is built twice with the real builder (All then prune_types(), and CodeOnly) and the code-level views are compared; residues of type information in the pruned graph are checked. All worlds within the completed deviation bound are enumerated (the evidence states the bound).",
+  "Differential oracle, no reference model. Errors compared by kind and specifier, not by referrer. Worlds violating the same-attribute proviso (also through redirects, roots, types header, pragma) are not generated; source-phase imports of otherwise-loaded specifiers are excluded here and reported under C01.",
+  "DESIGN.md §4 C17", TECH + "; deviation-bounded enumeration of module worlds, differential oracle"),
+ "C18": (True,
+  "For every world inside the deviation bound, every graph kind and every set of <= 2 module-holding specifiers as segment roots: each dependency of each module in the segment resolves and looks up as in the original, validation verdicts agree, and for non-original roots the listing equals a direct build of those roots.",
+  "Differential oracle. Segment roots are specifiers that no import loads as an asset (same-attribute proviso; a root is an attribute-less import).",
+  "DESIGN.md §4 C18", TECH + "; deviation-bounded enumeration of module worlds x graph kinds x segment roots, differential oracle"),
 }
 
 ALL = ["C%02d" % i for i in range(1, 21)]
